@@ -50,13 +50,13 @@ let suite_hops (line : string) : string =
                 hw_risk_admin_signs = false } in
   let nops = ni t in
   let out = ref [] in
-  let ra = ref (-1) in        (* account whose authority is the group's risk admin (fixture op 20) *)
+  let ra = ref (-1) in        (* account whose authority is the group's risk admin (fixture op 30) *)
   for _ = 1 to nops do
     let op = ni t in
-    if op = 20 then begin
+    if op = 30 then begin
       let a = ni t in ra := (if a < na then a else -1);
       out := ("OK # " ^ dump_hworld !w) :: !out
-    end else if op = 21 then begin
+    end else if op = 31 then begin
       let b = ni t in let fl = nz t in
       let banks' = Stdlib.List.mapi (fun i (hb : M.hbank) ->
         if i = b then M.set_hb_b (M.set_b_flags fl hb.M.hb_b) hb else hb) !w.M.hw_banks in
@@ -70,7 +70,7 @@ let suite_hops (line : string) : string =
       | 2 -> let a = nn t in let b = nn t in let n = nz t in let f = nb_ t in M.HWithdraw (a, b, n, f)
       | 3 -> let a = nn t in let b = nn t in let n = nz t in M.HBorrow (a, b, n)
       | 4 -> let a = nn t in let b = nn t in let n = nz t in let f = nb_ t in
-             (* the signer of a repay is the account authority: it is the risk admin iff fixture op 20 said so *)
+             (* the signer of a repay is the account authority: it is the risk admin iff fixture op 30 said so *)
              w := { !w with M.hw_risk_admin_signs = (nat_to_int a = !ra) };
              M.HRepay (a, b, n, f)
       | 7 -> let a = nn t in let b = nn t in M.HCloseBalance (a, b)
